@@ -1,0 +1,398 @@
+// Copyright (c) 2026 10X Genomics, Inc. All rights reserved.
+
+//go:build verif
+
+package core
+
+// Exports for the external verification harness (property C11: fork
+// identities and journal routing).  This file is only compiled with
+// `-tags verif`; it adds no behaviour to the normal build.
+
+import (
+	"context"
+	"fmt"
+	"path"
+	"sort"
+	"time"
+
+	"github.com/martian-lang/martian/martian/syntax"
+	"github.com/martian-lang/martian/martian/util"
+)
+
+// VerifMakeKeySafe exposes makeKeySafe.
+func VerifMakeKeySafe(k string) string { return makeKeySafe(k) }
+
+// VerifEncodeJournalName exposes the encodeJournalName replacer.
+func VerifEncodeJournalName(s string) string { return encodeJournalName.Replace(s) }
+
+// VerifJobJournalRe returns the source text of jobJournalRe.
+func VerifJobJournalRe() string { return jobJournalRe.String() }
+
+// VerifParseRunFilename exposes Node.parseRunFilename (which does not use
+// its receiver).
+func VerifParseRunFilename(s string) (string, string, int, string, string) {
+	return (*Node)(nil).parseRunFilename(s)
+}
+
+// VerifForkPart describes one ForkSourcePart.
+//
+//	Kind "arr":   array index Index of a source of length Len
+//	Kind "map":   map key Key of a source with key set Keys
+//	Kind "undet": not yet resolved (undeterminedFork)
+//	Kind "empty": emptyFork (range of length 0)
+//
+// Static selects a source of statically known length (ArrayExp / MapExp);
+// otherwise the source has unknown length and the range is carried by
+// ForkSourcePart.Range (arrayLengthRange / mapKeyRange), as after run-time
+// expansion.
+type VerifForkPart struct {
+	Kind   string
+	Index  int
+	Key    string
+	Len    int
+	Keys   []string
+	Static bool
+}
+
+// verifSrc is a map call source of unknown length.
+type verifSrc struct{ mode syntax.CallMode }
+
+func (s *verifSrc) GoString() string            { return "verifSrc" }
+func (s *verifSrc) CallMode() syntax.CallMode   { return s.mode }
+func (s *verifSrc) KnownLength() bool           { return false }
+func (s *verifSrc) ArrayLength() int            { return -1 }
+func (s *verifSrc) Keys() map[string]syntax.Exp { return nil }
+
+func verifMakeForkId(parts []VerifForkPart) ForkId {
+	id := make(ForkId, 0, len(parts))
+	for i := range parts {
+		p := &parts[i]
+		call := &syntax.CallStm{Id: fmt.Sprintf("C%d", i), DecId: fmt.Sprintf("C%d", i)}
+		split := &syntax.SplitExp{Call: call}
+		part := &ForkSourcePart{Split: split}
+		switch p.Kind {
+		case "arr":
+			part.Id = arrayIndexFork(p.Index)
+			if p.Static {
+				split.Source = &syntax.ArrayExp{Value: make([]syntax.Exp, p.Len)}
+			} else {
+				split.Source = &verifSrc{mode: syntax.ModeArrayCall}
+				part.Range = arrayLengthRange(p.Len)
+			}
+		case "map":
+			part.Id = mapKeyFork(p.Key)
+			if p.Static {
+				m := make(map[string]syntax.Exp, len(p.Keys))
+				for _, k := range p.Keys {
+					m[k] = nil
+				}
+				split.Source = &syntax.MapExp{Kind: syntax.KindMap, Value: m}
+			} else {
+				split.Source = &verifSrc{mode: syntax.ModeMapCall}
+				part.Range = mapKeyRange(p.Keys)
+			}
+		case "undet":
+			part.Id = dummyForkId
+			split.Source = &verifSrc{mode: syntax.ModeUnknownMapCall}
+		case "empty":
+			part.Id = emptyFork{}
+			split.Source = &verifSrc{mode: syntax.ModeArrayCall}
+			part.Range = arrayLengthRange(0)
+		default:
+			panic("bad kind " + p.Kind)
+		}
+		id = append(id, part)
+	}
+	return id
+}
+
+// VerifForkIdString runs ForkId.ForkIdString on the described fork id.
+// Panics are reported in the error string.
+func VerifForkIdString(parts []VerifForkPart) (s string, errs string) {
+	defer func() {
+		if r := recover(); r != nil {
+			s, errs = "", fmt.Sprint("panic: ", r)
+		}
+	}()
+	r, err := verifMakeForkId(parts).ForkIdString()
+	if err != nil {
+		return r, "error: " + err.Error()
+	}
+	return r, ""
+}
+
+// verifJobManager is an inert job manager: nothing is ever launched.
+type verifJobManager struct{}
+
+func (verifJobManager) execJob(string, []string, map[string]string, *Metadata,
+	*JobResources, string, string, bool) {
+}
+func (verifJobManager) endJob(*Metadata) {}
+func (verifJobManager) checkQueue(ids []string, _ context.Context) ([]string, string) {
+	return ids, ""
+}
+func (verifJobManager) hasQueueCheck() bool                        { return false }
+func (verifJobManager) queueCheckGrace() time.Duration             { return 0 }
+func (verifJobManager) refreshResources(bool) error                { return nil }
+func (verifJobManager) GetSystemReqs(r *JobResources) JobResources { return *r }
+func (verifJobManager) GetMaxCores() int                           { return 1 }
+func (verifJobManager) GetMaxMemGB() int                           { return 1 }
+func (verifJobManager) GetSettings() *JobManagerSettings           { return nil }
+func (verifJobManager) resetMaxJobs()                              {}
+func (verifJobManager) reattach(*Metadata)                         {}
+
+// VerifWorld is a node tree built from a compiled MRO program, with forks
+// added explicitly, living in a scratch directory.  It lets the harness
+// drive the real naming code (NewFork/updateId, NewChunk,
+// Metadata.journalFile) and the real journal reader (Node.refreshState).
+type VerifWorld struct {
+	top  *TopNode
+	root *Node
+}
+
+// VerifNewWorld compiles src (which must contain a top-level call) and
+// builds the node tree for pipestance id psid under dir.
+func VerifNewWorld(src, psid, dir string) (w *VerifWorld, err error) {
+	defer func() {
+		if r := recover(); r != nil {
+			w, err = nil, fmt.Errorf("panic: %v", r)
+		}
+	}()
+	_, _, ast, err := syntax.ParseSourceBytes([]byte(src), "verif.mro", nil, false)
+	if err != nil {
+		return nil, err
+	}
+	if ast.Call == nil {
+		return nil, fmt.Errorf("no call")
+	}
+	graph, err := ast.MakeCallGraph("ID."+psid+".", ast.Call)
+	if err != nil {
+		return nil, err
+	}
+	top := &TopNode{
+		fqname:      "ID." + psid,
+		rt:          &Runtime{JobManager: verifJobManager{}},
+		types:       &ast.TypeTable,
+		journalPath: path.Join(dir, "journal"),
+		tmpPath:     path.Join(dir, "tmp"),
+		allNodes:    make(map[string]*Node),
+	}
+	top.node.top = top
+	top.node.path = dir
+	top.node.frontierNodes = &threadSafeNodeMap{nodes: make(map[string]Nodable)}
+	var build func(parent *Node, call syntax.CallGraphNode) *Node
+	build = func(parent *Node, call syntax.CallGraphNode) *Node {
+		n := &Node{
+			parent:        parent,
+			top:           top,
+			call:          call,
+			path:          path.Join(parent.path, call.Call().Id),
+			frontierNodes: top.node.frontierNodes,
+		}
+		n.metadata = NewMetadata(call.GetFqid(), n.path)
+		top.allNodes[call.GetFqid()] = n
+		if ch := call.GetChildren(); len(ch) > 0 {
+			n.subnodes = make(map[string]Nodable, len(ch))
+			for _, c := range ch {
+				n.subnodes[c.Call().Id] = build(n, c)
+			}
+		}
+		return n
+	}
+	root := build(&top.node, graph)
+	return &VerifWorld{top: top, root: root}, nil
+}
+
+// Fqids lists the fully-qualified ids of all nodes, sorted.
+func (w *VerifWorld) Fqids() []string {
+	r := make([]string, 0, len(w.top.allNodes))
+	for k := range w.top.allNodes {
+		r = append(r, k)
+	}
+	sort.Strings(r)
+	return r
+}
+
+// JournalPath returns the journal directory.
+func (w *VerifWorld) JournalPath() string { return w.top.journalPath }
+
+// VerifForkNames are the names the real code derived for one fork.
+type VerifForkNames struct {
+	Id, Path, Fqname, JournalPath string
+	ChunkFqnames                  []string
+	ChunkPaths                    []string
+}
+
+// AddFork appends a fork with the described id and nchunks chunks to the
+// node fqid (using NewFork and NewChunk) and returns the derived names.
+func (w *VerifWorld) AddFork(fqid string, parts []VerifForkPart, nchunks int) (names VerifForkNames, err error) {
+	defer func() {
+		if r := recover(); r != nil {
+			err = fmt.Errorf("panic: %v", r)
+		}
+	}()
+	n := w.top.allNodes[fqid]
+	if n == nil {
+		return names, fmt.Errorf("no node %s", fqid)
+	}
+	f := NewFork(n, len(n.forks), verifMakeForkId(parts))
+	n.forks = append(n.forks, f)
+	width := WidthForChunks(nchunks)
+	f.chunks = nil
+	for i := 0; i < nchunks; i++ {
+		f.chunks = append(f.chunks, NewChunk(f, i, new(ChunkDef), width))
+	}
+	f.metadatasCache = nil
+	names = VerifForkNames{Id: f.id, Path: f.path, Fqname: f.fqname,
+		JournalPath: f.split_metadata.journalPath}
+	for _, c := range f.chunks {
+		names.ChunkFqnames = append(names.ChunkFqnames, c.fqname)
+		names.ChunkPaths = append(names.ChunkPaths, c.metadata.finalPath)
+	}
+	return names, nil
+}
+
+func (w *VerifWorld) jobMetadata(fqid string, fork int, job string, chunk int) *Metadata {
+	n := w.top.allNodes[fqid]
+	if n == nil || fork < 0 || fork >= len(n.forks) {
+		return nil
+	}
+	f := n.forks[fork]
+	switch job {
+	case "split":
+		return f.split_metadata
+	case "join":
+		return f.join_metadata
+	case "chunk":
+		if chunk >= 0 && chunk < len(f.chunks) {
+			return f.chunks[chunk].metadata
+		}
+	case "fork":
+		return f.metadata
+	}
+	return nil
+}
+
+// SetUniquifier sets the attempt uniquifier of one job's metadata object.
+func (w *VerifWorld) SetUniquifier(fqid string, fork int, job string, chunk int, u string) bool {
+	if m := w.jobMetadata(fqid, fork, job, chunk); m != nil {
+		m.uniquifier = u
+		return true
+	}
+	return false
+}
+
+// RunFile returns what Node.runJob passes to mrjob as the journal prefix
+// for the given job (Metadata.journalFile).
+func (w *VerifWorld) RunFile(fqid string, fork int, job string, chunk int) string {
+	if m := w.jobMetadata(fqid, fork, job, chunk); m != nil {
+		return m.journalFile()
+	}
+	return ""
+}
+
+// Refresh runs the real journal reader on the journal directory
+// (journal files are consumed, as in a read-write mrp).
+func (w *VerifWorld) Refresh() (err error) {
+	defer func() {
+		if r := recover(); r != nil {
+			err = fmt.Errorf("panic: %v", r)
+		}
+	}()
+	w.root.refreshState(false)
+	return nil
+}
+
+// VerifSeen is one (job, metadata file name) pair that the runtime has
+// recorded as notified.
+type VerifSeen struct {
+	Fqid  string
+	Fork  int
+	Job   string
+	Chunk int
+	Name  string
+}
+
+// Seen lists every notification recorded in any metadata cache, sorted.
+func (w *VerifWorld) Seen() []VerifSeen {
+	var r []VerifSeen
+	add := func(fqid string, fork int, job string, chunk int, m *Metadata) {
+		m.mutex.Lock()
+		for k := range m.contents {
+			r = append(r, VerifSeen{fqid, fork, job, chunk, string(k)})
+		}
+		m.mutex.Unlock()
+	}
+	for fqid, n := range w.top.allNodes {
+		for i, f := range n.forks {
+			add(fqid, i, "fork", -1, f.metadata)
+			add(fqid, i, "split", -1, f.split_metadata)
+			add(fqid, i, "join", -1, f.join_metadata)
+			for j, c := range f.chunks {
+				add(fqid, i, "chunk", j, c.metadata)
+			}
+		}
+	}
+	sort.Slice(r, func(i, j int) bool {
+		a, b := r[i], r[j]
+		if a.Fqid != b.Fqid {
+			return a.Fqid < b.Fqid
+		}
+		if a.Fork != b.Fork {
+			return a.Fork < b.Fork
+		}
+		if a.Job != b.Job {
+			return a.Job < b.Job
+		}
+		if a.Chunk != b.Chunk {
+			return a.Chunk < b.Chunk
+		}
+		return a.Name < b.Name
+	})
+	return r
+}
+
+// ClearSeen empties every metadata cache.
+func (w *VerifWorld) ClearSeen() {
+	for _, n := range w.top.allNodes {
+		for _, f := range n.forks {
+			for _, m := range f.collectMetadatas() {
+				m.mutex.Lock()
+				m.contents = make(map[MetadataFileName]struct{})
+				m.mutex.Unlock()
+			}
+		}
+	}
+}
+
+// VerifGetFork builds a node with fully-qualified id fqid whose forks have
+// the given id strings (in list order) and returns the list position of
+// the fork that Node.getFork(index) selects, or -1.
+func VerifGetFork(w *VerifWorld, fqid string, index string) int {
+	n := w.top.allNodes[fqid]
+	if n == nil {
+		return -2
+	}
+	f := n.getFork(index)
+	if f == nil {
+		return -1
+	}
+	for i, g := range n.forks {
+		if g == f {
+			return i
+		}
+	}
+	return -3
+}
+
+// VerifFind returns the fqid of the node Node.find(name) selects from the
+// root, or "".
+func (w *VerifWorld) VerifFind(name string) string {
+	if n := w.root.find(name); n != nil {
+		return n.call.GetFqid()
+	}
+	return ""
+}
+
+// WidthForChunks is the chunk index width Fork.updateId / doChunks use.
+func WidthForChunks(n int) int { return util.WidthForInt(n) }
